@@ -6,7 +6,7 @@ from islamon.gen import grammars as GG
 from islamon.gen.formulas import FGen
 
 SPEC = {
-    "quick": {"shards": 16, "budget_s": 50, "timeout_s": 260},
+    "quick": {"shards": 16, "budget_s": 40, "timeout_s": 260},
     "thorough": {"shards": 16, "budget_s": 900, "timeout_s": 1600},
     "rule": "case = (formula object parsed from a generated constraint, 2 closed trees, rewrite): rewrites = negation, NNF, "
             "NNF of the negation, DNF (deep and shallow) of the NNF, ensure_unique_bound_variables, x&x, x|-x, x&-x, x&y, x|y, "
@@ -53,6 +53,9 @@ def judge(ctx, gname, g, m, f_ast, f2_ast, rng):
         ("dnf", lambda: L.convert_to_dnf(nnf(x)), "same"), ("dnf_shallow", lambda: L.convert_to_dnf(nnf(x), deep=False), "same"),
         ("uniq", lambda: L.ensure_unique_bound_variables(x), "same"), ("uniq_and_self", lambda: L.ensure_unique_bound_variables(x & x), "same"),
         ("and_self", lambda: x & x, "same"), ("or_neg", lambda: x | -x, "T"), ("and_neg", lambda: x & -x, "F"),
+        ("absorb_or", lambda: x | (x & y), "same"), ("absorb_or_rev", lambda: (y & x) | x, "same"), ("absorb_and", lambda: x & (x | y), "same"),
+        ("absorb_or_nary", lambda: y | L.ConjunctiveFormula(x, y, x), "y"), ("absorb_neg_nnf", lambda: nnf(-(x & (y | x))), "inv"),
+        ("absorb_dnf", lambda: L.convert_to_dnf(nnf(x & (x | y))), "same"),
         ("and_xy", lambda: x & y, "and"), ("or_xy", lambda: x | y, "or"),
         ("nary_and", lambda: L.ConjunctiveFormula(x, y, x), "and"), ("nary_or", lambda: L.DisjunctiveFormula(x, y, x), "or"),
         ("dnf_nary", lambda: L.convert_to_dnf(nnf(L.ConjunctiveFormula(x, y | x, x | -y))), "same_x_and_(y|x)"),
@@ -84,7 +87,7 @@ def judge(ctx, gname, g, m, f_ast, f2_ast, rng):
         ctx.count("base_true" if bx == "T" else "base_false")
         X, Y = bx == "T", by == "T"
         for name, (v, exp) in built.items():
-            want = {"inv": not X, "same": X, "T": True, "F": False, "and": X and Y, "or": X or Y, "same_x_and_(y|x)": X and (Y or X) and (X or not Y)}[exp]
+            want = {"inv": not X, "same": X, "T": True, "F": False, "and": X and Y, "or": X or Y, "y": Y, "same_x_and_(y|x)": X and (Y or X) and (X or not Y)}[exp]
             got = ev3(ctx, v, t, g)
             if got in ("TO", "U"):
                 ctx.inconclusive("rewritten-verdict-" + ("unknown" if got == "U" else "watchdog"))
@@ -116,7 +119,7 @@ def run(ctx):
         gen = FGen(g, rng, m)
         f1 = gen.formula(rng.randint(0, 3), {"start": "<start>"})
         f2 = gen.formula(rng.randint(0, 2), {"start": "<start>"})
-        st, v = ctx.guarded(judge, ctx, gname, g, m, f1, f2, rng, timeout=200)
+        st, v = ctx.guarded(judge, ctx, gname, g, m, f1, f2, rng, timeout=60)
         if st == "watchdog":
             ctx.inconclusive("watchdog")
         elif st == "exc":
